@@ -33,9 +33,78 @@ def apply_variant(v, root=None):
     return overlay
 
 
+def parse_patch(text):
+    """{relpath: [(old_lines, new_lines)]} of a unified diff (git diff)"""
+    files = {}
+    cur = None
+    hunk = None
+    for line in text.splitlines():
+        if line.startswith('+++ '):
+            name = line[4:].strip()
+            cur = name[2:] if name.startswith('b/') else name
+            files[cur] = []
+            hunk = None
+        elif line.startswith('--- ') or line.startswith('diff ') or \
+                line.startswith('index '):
+            continue
+        elif line.startswith('@@'):
+            hunk = ([], [])
+            if cur is not None:
+                files[cur].append(hunk)
+        elif hunk is not None:
+            if line.startswith('+'):
+                hunk[1].append(line[1:])
+            elif line.startswith('-'):
+                hunk[0].append(line[1:])
+            elif line.startswith(' ') or line == '':
+                hunk[0].append(line[1:])
+                hunk[1].append(line[1:])
+    return files
+
+
+def apply_patch(text, root=None):
+    """overlay {relpath: new source} or None if a hunk does not apply to
+    the current tree (stale seed)"""
+    root = root or model.REPO
+    overlay = {}
+    for rel, hunks in parse_patch(text).items():
+        try:
+            with open(os.path.join(root, rel), encoding='utf-8') as f:
+                src = f.read()
+        except OSError:
+            return None
+        for old, new in hunks:
+            o = '\n'.join(old) + '\n'
+            n = '\n'.join(new) + '\n'
+            if src.count(o) != 1:
+                return None
+            src = src.replace(o, n)
+        overlay[rel] = src
+    return overlay
+
+
+def seeded_variants(prop):
+    """the sub-agent seeds kept under /verif/seeded whose own property
+    check is recorded as detecting them"""
+    import glob
+    import json
+    out = []
+    base = os.path.join(os.path.dirname(HERE), 'seeded')
+    for mf in sorted(glob.glob(os.path.join(base, '*', 'meta.json'))):
+        m = json.load(open(mf))
+        if m.get('property') != prop or \
+                not m.get('detected_by_own_check'):
+            continue
+        with open(os.path.join(os.path.dirname(mf), 'patch.diff')) as f:
+            out.append({'id': 'seeded-' + m['seed'], 'prop': prop,
+                        'patch': f.read(),
+                        'expect': {'rule': None, 'contains': ''}})
+    return out
+
+
 def _run_one(v):
     import check
-    overlay = apply_variant(v)
+    overlay = apply_patch(v['patch']) if 'patch' in v else apply_variant(v)
     if overlay is None:
         return v['id'], 'stale', ''
     rep = check.run_property(v['prop'], 'quick', overlay=overlay)
@@ -53,8 +122,9 @@ def _run_one(v):
             hits.append(f)
     want = v['expect']
     for f in hits:
-        if f.rule == want.get('rule') and \
-                want.get('contains', '') in f.key:
+        if want.get('rule') is None or (
+                f.rule == want.get('rule') and
+                want.get('contains', '') in f.key):
             return v['id'], 'detected', f.key
     if rep.analysis_errors and want.get('rule') == 'ANALYSIS-ERROR':
         return v['id'], 'detected', rep.analysis_errors[0]
@@ -75,7 +145,8 @@ def run(variants, jobs=None):
 
 def run_for_property(prop):
     from selftest import variants as V
-    vs = [v for v in V.VARIANTS if v['prop'] == prop]
+    vs = [v for v in V.VARIANTS if v['prop'] == prop] + \
+        seeded_variants(prop)
     res = run(vs)
     errors = []
     summary = {'variants': len(vs), 'detected': 0, 'stale': 0, 'missed': 0,
